@@ -163,6 +163,39 @@ class MemPath:
             return name[i:]
         return ""
 
+    @property
+    def stem(self) -> Any:
+        name = self.parts[-1]
+        i = name.rfind(".")
+        if 0 < i < len(name) - 1:
+            return name[:i]
+        return name
+
+    @property
+    def parent(self) -> "MemPath":
+        return MemPath(*self.parts[:-1]) if len(self.parts) > 1 else self
+
+    def with_name(self, name: Any) -> "MemPath":
+        if not self.parts[-1]:
+            raise ValueError("%r has an empty name" % (self,))
+        if not name or "/" in name or name == ".":
+            raise ValueError("Invalid name %r" % (name,))
+        return MemPath(*(self.parts[:-1] + (name,)))
+
+    def with_suffix(self, suffix: Any) -> "MemPath":
+        # pathlib (3.12): the suffix must start with a dot and must not be a lone dot or contain a separator
+        if "/" in suffix or (suffix and not suffix.startswith(".")) or suffix == ".":
+            raise ValueError("Invalid suffix %r" % (suffix,))
+        name = self.parts[-1]
+        if not name:
+            raise ValueError("%r has an empty name" % (self,))
+        old = self.suffix
+        if not old:
+            name = name + suffix
+        else:
+            name = name[:-len(old)] + suffix
+        return MemPath(*(self.parts[:-1] + (name,)))
+
     def exists(self) -> bool:
         return self.FS.is_dir(self.parts) or self.FS.find(self.parts) is not None
 
@@ -262,5 +295,14 @@ def validate() -> Optional[str]:
         for n in CORPUS_NAMES + ["x", "x.", ".x", "a.b.c"]:
             if pathlib.PurePosixPath(n).suffix != MemPath("d", n).suffix:
                 return "suffix(%r): pathlib %r, stand-in %r" % (n, pathlib.PurePosixPath(n).suffix, MemPath("d", n).suffix)
+            pp = pathlib.PurePosixPath("d") / n
+            mp = MemPath("d", n)
+            if pp.stem != mp.stem:
+                return "stem(%r): pathlib %r, stand-in %r" % (n, pp.stem, mp.stem)
+            for suf in (".json", ".pkl", ""):
+                if pp.with_suffix(suf).name != mp.with_suffix(suf).name:
+                    return "with_suffix(%r, %r): pathlib %r, stand-in %r" % (n, suf, pp.with_suffix(suf).name, mp.with_suffix(suf).name)
+            if pp.with_name("q.r").name != mp.with_name("q.r").name or pp.parent.name != mp.parent.name:
+                return "with_name/parent(%r)" % (n,)
     MemPath.FS = MemFS()
     return None
